@@ -1461,6 +1461,43 @@ oracle = no panic; success xor (diagnostic with file/line/col or close error); i
 				}
 				if cx.report.oracle_failures_total >= 20 {break;}
 			}
+			// arithmetic corners as program text: every operator over boundary operands, literal or deferred
+			let lits = ["0", "1", "2", "3", "63", "64", "65", "(0 - 1)", "-1", "(1 << 63)", "((1 << 63) + 1)", "9223372036854775807",
+				"0x7FFFFFFFFFFFFFFF", "4294967296", "(0 - 4294967295)", "-(1 << 62)", "!0", "'a'", "x", "y"];
+			let ops = ["+", "-", "*", "/", "%", "&", "|", "^", "<<", ">>"];
+			let nexpr = if cx.thorough() {60_000} else {6_000};
+			for i in 0..nexpr
+			{
+				let mut rng = cx.rng.fork();
+				fn gen(rng: &mut Rng, lits: &[&str], ops: &[&str], depth: u32) -> String
+				{
+					if depth == 0 || rng.chance(1, 3) {return rng.pick(lits).to_string();}
+					match rng.below(8)
+					{
+						0 => format!("-{}", gen(rng, lits, ops, depth - 1)),
+						1 => format!("!{}", gen(rng, lits, ops, depth - 1)),
+						2 => format!("({})", gen(rng, lits, ops, depth - 1)),
+						_ => {let o = *rng.pick(ops); format!("({} {} {})", gen(rng, lits, ops, depth - 1), o, gen(rng, lits, ops, depth - 1))},
+					}
+				}
+				let e = if i < (lits.len() * lits.len() * ops.len()) as u64
+				{
+					// exhaustive part: every operator over every ordered pair of boundary operands
+					let (a, r) = ((i as usize) / (lits.len() * ops.len()), (i as usize) % (lits.len() * ops.len()));
+					format!("{} {} {}", lits[a], ops[r / lits.len()], lits[r % lits.len()])
+				}
+				else {gen(&mut rng, &lits, &ops, 4)};
+				let (xv, yv) = (*rng.pick(&["0", "1", "-1", "(1 << 63)", "9223372036854775807", "5"]), *rng.pick(&["0", "1", "-1", "3", "64"]));
+				let text = match rng.below(4)
+				{
+					0 => format!(".addr 0x100;\n.const x, {xv};\n.const y, {yv};\n.du32 ({e}) & 0xFF;\n"),
+					1 => format!(".addr 0x100;\n.du32 ({e}) & 0xFF;\n.const x, {xv};\n.const y, {yv};\n"),
+					2 => format!(".addr 0x100;\n.global x;\n.global y;\nMOVS R0, ({e}) & 0xFF;\n.const x, {xv};\n.const y, {yv};\n"),
+					_ => format!(".addr 0x100;\n.const y, {yv};\n.du8 (({e}) % 7) & 1;\n.const x, {xv};\n"),
+				};
+				check_c06(cx, &Project::single(text.as_bytes()), Expect::Any, "expression", &dir);
+				if cx.report.oracle_failures_total >= 20 {break;}
+			}
 			for cycle in [1usize, 2] {self_include(cx, &dir, cycle);}
 		},
 		_ => unreachable!(),
